@@ -25,9 +25,10 @@ type c06Case struct {
 	PadLen  int     `json:"padlen"`
 	PadPat  int     `json:"padpat"`
 	IVPat   int     `json:"ivpat"`
-	Warm    int     `json:"warm"`            // lib2ref: the sending key object has carried a long (1) / an empty (2) message before
-	Env     []int   `json:"env,omitempty"`   // random-source answers during protection (explorer choices)
-	Again   int     `json:"again,omitempty"` // lib2ref: the same message object is protected a second time after 1: the Message ID changed, 2: under another SA (rekey), 3: by the other role; the second datagram is the one examined
+	Warm    int     `json:"warm"`               // lib2ref: the sending key object has carried a long (1) / an empty (2) message before
+	Env     []int   `json:"env,omitempty"`      // random-source answers during protection (explorer choices)
+	SKFlags int     `json:"sk_flags,omitempty"` // ref2lib: the peer sets this octet as critical flag / reserved bits of the SK generic header (a receiver ignores it; the checksum covers it)
+	Again   int     `json:"again,omitempty"`    // lib2ref: the same message object is protected a second time after 1: the Message ID changed, 2: under another SA (rekey), 3: by the other role; the second datagram is the one examined
 }
 
 func init() {
@@ -99,6 +100,9 @@ func runC06(c *engine.Ctx) {
 								evalC06(c, c06Case{K: "ref2lib", Name: name, M: m, Suite: si, Pattern: 2, SenderI: sI, PadLen: p, PadPat: pp, IVPat: iv})
 							}
 						}
+					}
+					for _, fl := range []int{0x80, 0x01, 0x7f, 0xff} {
+						evalC06(c, c06Case{K: "ref2lib", Name: name, M: m, Suite: si, Pattern: 2, SenderI: sI, PadLen: minPad, PadPat: 1, IVPat: 1, SKFlags: fl})
 					}
 				} else {
 					maxPad := minPad + 16*((255-minPad)/16)
@@ -321,6 +325,11 @@ func evalC06(c *engine.Ctx, cs c06Case) {
 		c.Count("reference_protect_refused", 1)
 		return
 	}
+	if cs.SKFlags != 0 {
+		b[29] = byte(cs.SKFlags)
+		icvLen := ks.Suite.Integ.OutLen
+		copy(b[len(b)-icvLen:], ref.HMAC(ks.Suite.Integ.Digest, ska, b[:len(b)-icvLen])[:icvLen])
+	}
 	sa, err := univ.NewSA(ks)
 	if err != nil {
 		c.Violate("sa-construction", errStr(err), cs)
@@ -334,9 +343,13 @@ func evalC06(c *engine.Ctx, cs c06Case) {
 		return
 	}
 	padClass := "pad=min"
+
 	_, inner, _ := ref.EncodeChain(m.P, ref.Lib{})
 	if cs.PadLen != (16-(len(inner)+1)%16)%16 {
 		padClass = "pad>min"
+	}
+	if cs.SKFlags != 0 {
+		padClass += "/sk-header-flags"
 	}
 	if err != nil {
 		c.Violate("ref2lib/rejected/"+padClass, fmt.Sprintf("%s %v %s pad %d pattern %d: %s", cs.Name, ks.Suite, dir, cs.PadLen, cs.PadPat, errStr(err)), cs)
